@@ -22,6 +22,9 @@ def dump(prop, runs, workers, hashseed, seed):
     env = dict(os.environ)
     env.pop('VERIF_REEXEC', None)
     env['VERIF_HASHSEED'] = str(hashseed)
+    # a skipped (unrecorded) operation must not have changed the model:
+    # violations of that rule surface here as harness errors
+    env['VERIF_SKIP_GUARD'] = '1'
     subprocess.run([os.path.join(ROOT, 'check'), prop, '--runs', str(runs),
                     '--workers', str(workers), '--seed', str(seed),
                     '--dump-digests', path], env=env, check=True,
